@@ -66,6 +66,8 @@ def histories(tier):
             out.append(list(h))
     if tier == "thorough":
         out += [list(h) for h in itertools.product(STEP_KINDS, repeat=4)][::3]
+    # a second session begun on the same instance (with other equations, so that the sessions can be told apart)
+    out += [["rebegin"], ["nobody", "rebegin"], ["nobody", "rebegin", "nobody"], ["set", "rebegin", "set"], ["rebegin", "rebegin", "nobody"]]
     return out
 
 
@@ -128,6 +130,9 @@ def run_case(spec, hist, compress, mode_whole, mode, env=None):
                 r = post("/%s/run-step" % inst, {"settings": {"sm": {"A": {"constants": {"k": v}}}}})
             elif kind == "empty":
                 r = post("/%s/run-step" % inst, {"settings": {}})
+            elif kind == "rebegin":
+                eqs = scen.EQS[:2] if (hist[:i + 1].count("rebegin") % 2) else scen.EQS[1:]
+                r = post("/%s/begin-session" % inst, {"scenario_managers": ["sm"], "scenarios": ["A"], "equations": eqs})
             else:
                 r = post("/%s/run-step" % inst)
             statuses.append(r.status_code)
